@@ -9,6 +9,7 @@ RULE = ("interleaved histories of 1..3 non-pruning tries over one shared dict (d
         "snapshot reads); the dict is made to fail at a chosen write index of an operation or of a batch commit (all indices in the "
         "thorough tier); after every step: every earlier entry still present with the same value, every new entry keyed by the keccak "
         "of its value; every root any handle ever had is re-opened (fresh trie and at_root) and read back in full. "
+        "Also: two squash_changes blocks open at once on one trie object (the second abandoned or committed before the first ends). "
         "non-trivial = >= 2 handles, a batch, a failing write and >= 4 distinct historical roots")
 
 
@@ -118,6 +119,69 @@ def run_and_check(case):
     return outs, bad, stats
 
 
+def gen_overlap(rng):
+    """two squash_changes blocks open at the same time on ONE trie object: block A is opened, works, then block B is opened on
+    the same trie, works and is either abandoned by an exception or committed, then A ends normally. (Python-side oracle only:
+    the model's blocks are properly nested.)"""
+    prior, m = HX.gen_writes(rng, rng.randint(1, 5))
+    a_ops, b_ops = [], []
+    ma, mb = dict(m), dict(m)
+    for _ in range(rng.randint(1, 3)):
+        w = HX.gen_write(rng, ma.keys())
+        a_ops.append(w)
+        HX.apply_model(ma, w)
+    for _ in range(rng.randint(1, 3)):
+        w = HX.gen_write(rng, mb.keys())
+        b_ops.append(w)
+        HX.apply_model(mb, w)
+    return {"overlap": True, "prior": prior, "a": a_ops, "b": b_ops, "b_exit": rng.choice(["abort", "abort", "commit"])}
+
+
+def run_overlap(case):
+    from trie import HexaryTrie
+    backing = C.FailingDict()
+    t = HexaryTrie(backing)
+    m = {}
+    history = {}
+    for w in case["prior"]:
+        HX.step(t, w, backing)
+        HX.apply_model(m, w)
+        history[bytes(t.root_hash)] = dict(m)
+    ma, mb = dict(m), dict(m)
+    try:
+        with t.squash_changes() as a:
+            for w in case["a"]:
+                HX.step(a, w, backing)
+                HX.apply_model(ma, w)
+            try:
+                with t.squash_changes() as b:
+                    for w in case["b"]:
+                        HX.step(b, w, backing)
+                        HX.apply_model(mb, w)
+                    if case["b_exit"] == "abort":
+                        raise C.Abort()
+                history[bytes(t.root_hash)] = dict(mb)          # B committed: for a moment the trie is B's result
+            except C.Abort:
+                if dict(m) != history.get(bytes(t.root_hash)):
+                    return "an abandoned block changed the root of the trie"
+            for k in HX.related_keys(ma.keys())[:8]:
+                if a.get(k) != ma.get(k, b""):
+                    return f"block A reads {k.hex()} wrongly after another block on the same trie ended"
+    except Exception as e:
+        return f"leaving block A raised {type(e).__name__}: {e}"
+    history[bytes(t.root_hash)] = dict(ma)
+    for root, mm in history.items():
+        fresh = HexaryTrie(backing, root)
+        for k in HX.related_keys(mm.keys()):
+            try:
+                got = fresh.get(k)
+            except Exception as e:
+                return f"root {root.hex()[:8]} (a root the trie had) is not readable from a freshly opened trie: {type(e).__name__}"
+            if got != mm.get(k, b""):
+                return f"root {root.hex()[:8]} reads {got!r} for key {k.hex()}, had {mm.get(k, b'')!r}"
+    return None
+
+
 def all_budgets_variants(case):
     """thorough: the same history with every failing index for each budgeted operation"""
     out = []
@@ -156,6 +220,13 @@ def check(tier, seed):
             if len(R.samples) < 2:
                 R.samples.append(C.to_json(case))
         terms.append(HX.coq_multi_case(case["nh"], case["ops"], outs))
+    for _ in range(40 if tier == "quick" else 400):
+        oc = gen_overlap(rng)
+        bad = run_overlap(oc)
+        R.evaluations += 1
+        R.count("overlapping_blocks_b_" + oc["b_exit"])
+        if bad:
+            R.spec_violations.append((bad, oc))
     shard = 8 if tier == "quick" else 25
     mism, errs, nsh = C.eval_cases("C04", "cases", HX.IMPORTS, "hexary_multi_run", "nat * list (nat * hop)", terms, shard=shard)
     R.shards, R.coq_errors = nsh, errs
@@ -179,6 +250,12 @@ def check(tier, seed):
 
 def replay(payload):
     case = payload["case"]
+    if case.get("overlap"):
+        for f in ("prior", "a", "b"):
+            case[f] = [HX.tuplify(o) for o in case[f]]
+        bad = run_overlap(case)
+        print("replay:", "VIOLATES: " + bad if bad else "holds")
+        return 1 if bad else 0
     case["ops"] = [(i, HX.tuplify(o)) for i, o in case["ops"]]
     _, bad, _ = run_and_check(case)
     print("replay:", "VIOLATES: " + bad if bad else "holds")
